@@ -5,6 +5,11 @@ V = os.path.dirname(os.path.dirname(os.path.abspath(__file__)))
 ALL = ['C%02d' % i for i in range(1, 20)]
 
 CHECKS = {
+ 'C18': dict(
+   technique='static interprocedural nullness dataflow over every may-fail allocation result; dangling-owner rule (free of a long-lived field / out-parameter with an exit that neither reassigns it nor releases its owner, completed at call sites); must-analysis for shallow-copy aliasing; hand-over atomicity rule',
+   text='Decides for every allocation site and every path, i.e. for the failure of any single allocation: the NULL result is tested before any dereference (201 tracked results, summaries for 368 dereferencing parameters), no owner field or out-parameter is left pointing at freed memory on an error exit (four such defects D1a-d were found, replayed by k-th-allocation failure and repaired by fix commits), a shallow copy is not destroyed while it aliases the original (D2, recorded), element hand-over between two owners has no exit inside the moving loop (D17 x3, recorded). Not decided: that later calls keep honouring the API contract after a failure.',
+   note='Leaks on failure paths are not C18 violations. Two sites are suppressed by name as infeasible with their reason (htp_hook_register, htp_ch_urlencoded_callback_request_line).',
+   ref='§4.18'),
  'C12': dict(
    technique='static call-order rule on the normalisation pipeline, forward must-analysis "write index tested since its last increment" for every in-place routine, call-graph reachability and sibling agreement of anomaly raise sites, bijection between configuration setters and decoder fields',
    text='Decides for all paths: the path arm runs decode, then UTF-8 best-fit or validation, then dot-segment removal; in every in-place routine each write through data[w++] follows a fresh w < len test and the result length is the write index (never longer); every anomaly indicator of the statement has a raise site in the path pipeline and every NUL test raises its indicator (D10 repaired by fix 0d226e4); each decoder option has exactly one setter writing it from its parameter for the context and the defaults (D11 repaired by fix 8c4f013). Not decided: equality with a reference decoder, idempotence, absence of dot segments in the result.',
